@@ -13,11 +13,19 @@ EXIT_HELD, EXIT_VIOLATION, EXIT_INCONCLUSIVE = 0, 1, 2
 
 
 def load_known(pid):
-    p = os.path.join(core.VERIF, 'known_findings.json')
-    if not os.path.exists(p):
-        return []
-    data = core.read_json(p)
-    return [f for f in data.get('findings', []) if f.get('property') == pid]
+    """Known findings: /verif/known_findings.json plus per-property fragments in
+    /verif/known_findings.d/*.json (same format). Committed files, never written at run time."""
+    out = []
+    paths = [os.path.join(core.VERIF, 'known_findings.json')]
+    d = os.path.join(core.VERIF, 'known_findings.d')
+    if os.path.isdir(d):
+        paths += sorted(os.path.join(d, n) for n in os.listdir(d) if n.endswith('.json'))
+    for p in paths:
+        if not os.path.exists(p):
+            continue
+        data = core.read_json(p)
+        out += [f for f in data.get('findings', []) if f.get('property') == pid]
+    return out
 
 
 class Check:
@@ -116,8 +124,8 @@ class Check:
                 core.write_json(path, {'property': self.pid, 'key': key, 'what': v['what'], 'count': v['count'],
                                        'tier': self.tier, 'seed': self.seed, 'tree': core.REPO,
                                        'witness': v['witness']})
-                print('VIOLATION property=%s replay=%s  # key=%s count=%d: %s' %
-                      (self.pid, path, key, v['count'], str(v['what'])[:300]))
+                print('VIOLATION property=%s replay=%s' % (self.pid, path))
+                print('  detail: key=%s count=%d: %s' % (key, v['count'], str(v['what'])[:300]))
         elif self.inconclusive:
             rc = EXIT_INCONCLUSIVE
             for r in self.inconclusive:
